@@ -47,16 +47,16 @@ Sched == PrintT(<<"SCHED", ToJson(hist)>>)
 CexNoCrash      == NoCrash \/ ~Sched
 CexNoLostTopic  == NoLostTopic \/ ~Sched
 CexLostD12      == (NoLostTopic \/ "D12" \notin devUsed) \/ ~Sched     \* lost through the stale publisher
-CexLostD18      == (NoLostTopic \/ devUsed # {"D18"}) \/ ~Sched         \* lost through the join without install
+CexLostD25      == (NoLostTopic \/ devUsed # {"D25"}) \/ ~Sched         \* lost through the join without install
 CexNoLeak       == NoLeakedPublisher \/ ~Sched
 CexAgreement    == TopicAgreement \/ ~Sched
-(* a goroutine that spins: the consumer came back to its select after errCh was closed (D19) *)
-NoSpin          == \A s \in Subs : ~(/\ errClosed[s] /\ s \in coSpawned /\ pc[CO(s)] = "co_sel" /\ "D19" \in devUsed
+(* a goroutine that spins: the consumer came back to its select after errCh was closed (D26) *)
+NoSpin          == \A s \in Subs : ~(/\ errClosed[s] /\ s \in coSpawned /\ pc[CO(s)] = "co_sel" /\ "D26" \in devUsed
                                      /\ ~subCh[s].closed /\ topicChans[subTopic[s]] # 0       \* the topic lives on: nothing will end the spin
                                      /\ pc[EL] = "el_wait" /\ uninstallQ = {} /\ \A x \in Subs : unReq[x] = 0
                                      /\ \A c \in CLs : pc[c] = "Done")
 CexNoSpin       == NoSpin \/ ~Sched
-(* the indexer service's OnStart is stuck in its quit re-broadcast (D20) *)
+(* the indexer service's OnStart is stuck in its quit re-broadcast (D27) *)
 NoStuckQuit     == ~(quit /\ quitBuf = 1 /\ ((pc[IM] = "im_q" /\ pc[IH] = "ih_done") \/ (pc[IH] = "ih_q" /\ pc[IM] = "im_done")))
 CexNoStuckQuit  == NoStuckQuit \/ ~Sched
 
